@@ -146,7 +146,7 @@ def load(path=WITNESS):
 
 if __name__ == "__main__":
     os.makedirs(os.path.join(vlib.OUT, "md"), exist_ok=True)
-    f = generate()
+    f = generate(procs=int(os.environ.get("WPROCS", "6")))
     for k in sorted(f):
         if k != "_done":
             print(k, [w["template"] for w in f[k]])
